@@ -131,6 +131,18 @@ def run_layout(nsteps, frames, sizes, rev, scalar, units="seconds", late=0, flat
         force = Forcing(dict(time=tk, grid=grid, state=st), str(d / "f_*.nc"), extra_forcing=["temp"] if scalar else None)
     except BaseException as e:
         return ("init:" + type(e).__name__, f"start-up failed on a valid layout: {e!r}")
+    # a second Forcing object on another data set (the same frames, stored packed) is set up after the first and before it is stepped
+    # (two nested or alternative forcings prepared in one script): what it learns about ITS files must not reach the first one
+    try:
+        dd = d.parent / (d.name + "_other")
+        dd.mkdir(exist_ok=True)
+        for f_ in dd.iterdir():
+            f_.unlink()
+        W.write_file(dd / "g_000.nc", [dict(t=S0 + sgn * s * DT, **W.uniform(0.25, -0.125)) for s in cal], storage="i2", scale=dict(u=(2.0 ** -6, 0.0), v=(2.0 ** -7, 0.0)))
+        tk2 = TimeKeeper(start=world.iso(S0), stop=world.iso(S0 + sgn * nsteps * DT), dt=DT, time_reversal=rev)
+        Forcing(dict(time=tk2, grid=grid, state=State()), str(dd / "g_*.nc"))
+    except BaseException:
+        pass
     sign = None
     # single-precision files: the difference of two frames carries a relative error of 2**-24; it must not grow with the number of steps
     tol = 1e-9 if storage == "f8" else 2.0 ** -23
